@@ -40,7 +40,7 @@ TIERS = {
     "quick": {"runs": 200, "chunk": 7, "max_points": 40, "chunk_timeout": 900},
     "thorough": {"runs": 5000, "chunk": 40, "max_points": 100000, "chunk_timeout": 3600},
 }
-REACH_PROBES = ["cancel_landed", "cancel_in_done_callback", "cancel_during_executor", "cancel_in_wait_until",
+REACH_PROBES = ["cancel_landed", "cancel_in_done_callback", "cancel_during_executor", "cancel_in_wait_until", "cancel_in_blocking_service_call",
                 "cancel_in_sleep", "cancel_before_first_step", "cancel_after_end", "raising_callback_then_other",
                 "waiter_saw_cancelled", "callback_removed"]
 SHRINK_LISTS = [["spec", "progs"], ["spec", "progs", "*", "steps"]]
@@ -66,15 +66,17 @@ def _gen_steps(rng: random.Random, victim: bool) -> list:
             steps.append(["remove_cb", rng.choice(cb_added)])
         elif roll < 0.76:
             steps.append(["unique"])
-        elif roll < 0.86:
+        elif roll < 0.82:
             steps.append(["wait_until", rng.choice([0.4, 1.0])])
+        elif roll < 0.86:
+            steps.append(["call_svc", rng.choice([0.2, 0.5])])
         elif roll < 0.9 and not victim:
             steps.append(["raise"])
             break
         elif roll < 0.93:
             steps.append(["cancel_self"])
             break
-    if not any(s[0] in ("sleep", "wait_until") for s in steps):
+    if not any(s[0] in ("sleep", "wait_until", "call_svc") for s in steps):
         steps.insert(rng.randint(0, len(steps)), ["sleep", 0.3])
     return steps
 
@@ -143,6 +145,8 @@ def render(scn: dict) -> dict:
             elif step[0] == "wait_until":
                 lines.append(f"    wr = task.wait_until(event_trigger='never_{tid}', timeout={step[1]})")
                 lines.append(f"    sim.mark('p', {tid}, 'wu', {idx}, tt=wr['trigger_type'])")
+            elif step[0] == "call_svc":
+                lines.append(f"    pyscript.helper_svc(blocking=True, d={step[1]}, who={tid})")
             elif step[0] == "raise":
                 lines.append("    raise ValueError('boom')")
             elif step[0] == "cancel_self":
@@ -152,6 +156,11 @@ def render(scn: dict) -> dict:
         lines.append(f"    return {prog['ret']}")
         lines.append("")
     lines += [
+        "@service",
+        "def helper_svc(d=None, who=None):",
+        "    task.sleep(d)",
+        "    sim.mark('helper', who)",
+        "",
         "@service",
         "def spawn(tid=None):",
     ]
@@ -252,6 +261,8 @@ def execute(scn: dict, k_cancel: int | None) -> dict:
             w.probe("cancel_during_executor")
         elif step[0] == "wait_until":
             w.probe("cancel_in_wait_until")
+        elif step[0] == "call_svc":
+            w.probe("cancel_in_blocking_service_call")
         if via == "reaper":
             Function.reaper_cancel(task)
         else:
@@ -415,6 +426,13 @@ def judge(scn: dict, obs: dict, base: dict | None, sub: str) -> list:
             bnames = [s[0] for s in _seq(base, tid)]
             if names != bnames[: len(names)]:
                 viol("C14.victim_not_prefix", {}, f"victim p{tid} markers {names} are not a prefix of {bnames}")
+            vtask = obs["task_of"].get(tid)
+            if scn["fault"]["via"] == "raw" and not cancel["in_cb"] and vtask is not None and vtask.done() \
+                    and not vtask.cancelled():
+                # Task.cancel() on a task suspended in its body: it must end cancelled, not carry on
+                viol("C14.cancel_swallowed", {"where": (cancel["last"] or ["start"])[0]},
+                     f"victim p{tid} was cancelled (Task.cancel) while suspended in {cancel['last']} but finished "
+                     f"normally; markers {names}")
         # ---- callbacks: exactly once each, right arguments
         label = next((m["task"] for m in obs["marks"] if m["args"][:3] == ["p", tid, "start"]), None)
         cbs = _cb_marks(obs, label)
